@@ -260,7 +260,46 @@ REPORTED_TEMPLATES = [
     ("too_many_positional_args", ["t{k} = posonly(1, 2, 3, 4, 5, 6, 7, 8, 9, x, y)"], "t{k}"),  # (5) positional-only
     ("missing_f", ["s{k} = f'{{{{x}}}} {{y}}'"], "s{k}"),                              # (6) inside an f-string
 ]
-FIX_TEMPLATES += NESTED_TEMPLATES + REPORTED_TEMPLATES
+# the statement forms through which a fixable expression can be reached: augmented and annotated assignments,
+# return / yield / await / assert / raise / del operands, default values, subscripts, comparison chains, lambda
+# bodies, f-string fields, match subjects and guards, with / for / while / if headers, starred and keyword arguments
+FORM_TEMPLATES = [
+    ("use_fstrings", ["m{k} = 'hello %s'", "m{k} %= x"], "m{k}"),
+    ("use_fstrings", ["m{k} = 'a'", "m{k} += 'b %s' % x"], "m{k}"),
+    ("use_fstrings", ["m{k}: str = 'v %s' % x"], "m{k}"),
+    ("use_fstrings", ["def in{k}():", "    return 'r %s' % x"], "in{k}()"),
+    ("use_fstrings", ["def g{k}():", "    yield 'y %s' % x", "    z{k} = yield 'z %s' % y", "    return z{k}"], "list(g{k}())"),
+    ("use_fstrings", ["async def co{k}():", "    return await asyncio.sleep(0, 'w %s' % x)"], "asyncio.run(co{k}())"),
+    ("use_fstrings", ["assert x is not None or y, 'm %s' % x"], "x"),
+    ("use_fstrings", ["try:", "    raise ValueError('e %s' % x) from KeyError('k %s' % y)", "except ValueError as ex{k}:", "    s{k} = str(ex{k})"], "s{k}"),
+    ("use_fstrings", ["d{k} = {{'k %s' % x: 1, 'other': 2}}", "del d{k}['k %s' % x]"], "d{k}"),
+    ("use_fstrings", ["def df{k}(a='d %s' % x, *, b='e %s' % y):", "    return a, b"], "df{k}()"),
+    ("use_fstrings", ["t{k} = {{'s 1': 2, 's 0': 3, 's 7': 4}}['s %s' % x]"], "t{k}"),
+    ("use_fstrings", ["c{k} = 'a' < 'c %s' % x < 'd'"], "c{k}"),
+    ("use_fstrings", ["l{k} = lambda: 'l %s' % x"], "l{k}()"),
+    ("use_fstrings", ["f{k} = f\"{{'i %s' % x}} tail {{y!r:>4}}\""], "f{k}"),
+    ("use_fstrings", ["match 'm %s' % x:", "    case str() as v{k} if v{k} != 'g %s' % y:", "        r{k} = v{k}", "    case _:", "        r{k} = ''"], "r{k}"),
+    ("use_fstrings", ["with open(os.devnull) as fh{k}, open('%s' % os.devnull) as gh{k}:", "    r{k} = gh{k}.name"], "r{k}"),
+    ("use_fstrings", ["r{k} = []", "for i{k} in ['f %s' % x]:", "    r{k}.append(i{k})"], "r{k}"),
+    ("use_fstrings", ["r{k} = 0", "while 'w %s' % x and r{k} < 1:", "    r{k} += 1"], "r{k}"),
+    ("use_fstrings", ["if 'c %s' % x == 'c 1':", "    r{k} = 1", "elif 'c %s' % x == 'c 7':", "    r{k} = 7", "else:", "    r{k} = 0"], "r{k}"),
+    ("use_fstrings", ["r{k} = print(*['s %s' % x], sep='k %s' % y)"], "x"),
+    ("use_fstrings", ["global gl{k}", "gl{k} = 'g %s' % x"], "gl{k}"),
+    ("missing_f", ["m{k} = 'a'", "m{k} += 'x = {{x}}'"], "m{k}"),
+    ("missing_f", ["def in{k}():", "    return 'x = {{x}}'"], "in{k}()"),
+    ("missing_f", ["def df{k}(a='x = {{x}}'):", "    return a"], "df{k}()"),
+    ("missing_f", ["assert x is not None or y, 'x = {{x}}'"], "x"),
+    ("missing_f", ["l{k} = lambda: 'x = {{x}}'"], "l{k}()"),
+    ("missing_f", ["m{k}: str = 'x = {{x}}'"], "m{k}"),
+    ("too_many_positional_args", ["def in{k}():", "    return callee(1, 2, 3, 4, 5, 6, 7, 8, 9, x, y)"], "in{k}()"),
+    ("too_many_positional_args", ["m{k} = (0,)", "m{k} += callee(1, 2, 3, 4, 5, 6, 7, 8, 9, x, y)"], "m{k}"),
+    ("too_many_positional_args", ["m{k}: tuple = callee(1, 2, 3, 4, 5, 6, 7, 8, 9, x, y)"], "m{k}"),
+    ("too_many_positional_args", ["assert callee(1, 2, 3, 4, 5, 6, 7, 8, 9, x, y), 'msg'"], "x"),
+    ("too_many_positional_args", ["l{k} = lambda: callee(1, 2, 3, 4, 5, 6, 7, 8, 9, x, y)[9]"], "l{k}()"),
+    ("unused_variable", ["r{k} = [i for i in range(2) for j{k} in range(2)]", "r{k} += [0 for q{k} in range(2)]"], "r{k}"),
+    ("unused_variable", ["def in{k}():", "    return [0 for q{k} in range(2)]"], "in{k}()"),
+]
+FIX_TEMPLATES += NESTED_TEMPLATES + REPORTED_TEMPLATES + FORM_TEMPLATES
 # the replacement attached to unused_ignore reports (remove the comment line / strip the comment)
 FIX_TEMPLATES += [
     ("unused_ignore", ["# static analysis: ignore[bad_unpack]", "print(x)"], "x"),
@@ -397,7 +436,7 @@ def intended_text(code, text, lineno=None, col=None):
 
 # (ii) "the only semantic change is the intended one" as an AST statement: old and new tree may differ
 # only inside the sub-tree of the node the diagnostic was reported on
-REPLACED_NODE = {"use_fstrings": ast.BinOp, "missing_f": ast.Constant, "too_many_positional_args": ast.Call}
+REPLACED_NODE = {"use_fstrings": ast.BinOp, "missing_f": (ast.Constant, ast.JoinedStr), "too_many_positional_args": ast.Call}
 
 
 def ast_diff_roots(a, b):
@@ -437,13 +476,25 @@ def ast_change_outside_target(code, old_text, new_text, lineno, col):
     if kind is None:
         return None
     old, new = ast.parse(old_text), ast.parse(new_text)
-    cands = [n for n in ast.walk(old) if isinstance(n, kind) and getattr(n, "lineno", None) == lineno and getattr(n, "col_offset", None) == col]
+    old_lines = old_text.split("\n")
+
+    def char_col(n):
+        # diagnostics carry character columns, ast byte offsets
+        ln = getattr(n, "lineno", None)
+        if ln is None or not (1 <= ln <= len(old_lines)):
+            return None
+        return len(old_lines[ln - 1].encode("utf-8")[: n.col_offset].decode("utf-8", "ignore"))
+
+    at_pos = [n for n in ast.walk(old) if getattr(n, "lineno", None) == lineno and char_col(n) == col]
+    cands = [n for n in at_pos if isinstance(n, kind)]
     if not cands:
+        if at_pos:
+            return f"the fix was applied for a {type(at_pos[0]).__name__} at line {lineno}, not for a {getattr(kind, '__name__', 'string literal')}"
         return None
     inside = {id(n) for n in ast.walk(cands[0])}
     for r in ast_diff_roots(old, new):
         if id(r) not in inside:
-            return f"{type(r).__name__} at line {getattr(r, 'lineno', '?')} changed outside the replaced {kind.__name__}: {ast.dump(r)[:160]}"
+            return f"{type(r).__name__} at line {getattr(r, 'lineno', '?')} changed outside the replaced {getattr(kind, '__name__', 'node')}: {ast.dump(r)[:160]}"
     return None
 
 
@@ -474,6 +525,8 @@ def reported_shape_finding(code, text, ap, first_diag, problems):
         return None
     tree = ast.parse(text)
     lo, hi = min(ap["del"]), max(ap["del"])
+    if text.splitlines()[lo - 1].lstrip().startswith("elif "):
+        return "C16-elif-becomes-if"  # the regenerated statement is the `If` node of an `elif` clause
     by_line = collections.Counter(st.lineno for st in ast.walk(tree) if isinstance(st, ast.stmt) and lo <= st.lineno <= hi)
     if any(n >= 2 for n in by_line.values()):
         return "C16-shared-physical-line"  # `if c: stmt`, `a; b`: another statement starts on a line of the replaced one
